@@ -33,7 +33,7 @@ Strip(ws) == [i \in 1..Len(ws) |-> ws[i] % 16]
 
 MemberSet(r) == {r.group0[i] + 1 : i \in 1..Len(r.group0)}
 
-Bad(s) == s.refuse_with # 0 \/ s.stall
+Bad(s) == s.refuse_with # 0 \/ s.stall \/ s.silent
 
 \* do the scripts apply to a stage of the transition chain under test?
 Applies(c) ==
@@ -88,7 +88,7 @@ MonitorErrors(r) ==
 SingleStage(r) == r.case.target = "safe_op" /\ r.case.script_state \in {"all", "safeop"} /\ "group0" \in DOMAIN r
 
 ScriptOf(s) == [after |-> s.accept_after_polls, refuse |-> s.refuse_with # 0, stall |-> s.stall,
-                fallAfter |-> s.fall_back_after]
+                fallAfter |-> s.fall_back_after, silent |-> s.silent]
 
 TInit ==
     \E i \in 1..Len(Rec) :
@@ -97,7 +97,7 @@ TInit ==
               /\ ((Rec[i].case.frame_data + 12) \div 14) = PerFrame
            THEN /\ script = [d \in Devs |-> ScriptOf(Rec[i].case.scripts[d])]
                 /\ pc = "request"
-           ELSE /\ script = [d \in Devs |-> [after |-> 0, refuse |-> FALSE, stall |-> FALSE, fallAfter |-> 0]]
+           ELSE /\ script = [d \in Devs |-> [after |-> 0, refuse |-> FALSE, stall |-> FALSE, fallAfter |-> 0, silent |-> FALSE]]
                 /\ pc = "skip"
         /\ state = [d \in Devs |-> From]
         /\ err = [d \in Devs |-> FALSE]
